@@ -211,6 +211,8 @@ func main() {
 		os.Exit(cmdRun(os.Args[2:]))
 	case "tracepath":
 		os.Exit(cmdTracePath(os.Args[2:]))
+	case "replay":
+		os.Exit(cmdReplay(os.Args[2:]))
 	default:
 		fmt.Fprintln(os.Stderr, "unknown command")
 		os.Exit(2)
@@ -332,6 +334,54 @@ func cmdRun(args []string) int {
 		}
 	}
 	return report(&cfg, *tier, seed, results, hcfgs, inconclusive, loadS, time.Since(t0).Seconds(), *noReplay)
+}
+
+// cmdReplay replays one recorded counterexample against the natively compiled code of /repo's current tree
+// (`./check <prop> --replay <file>`): exit 1 + VIOLATION line when it reproduces, 0 when it does not.
+func cmdReplay(args []string) int {
+	fs := flag.NewFlagSet("replay", flag.ExitOnError)
+	prop := fs.String("prop", "", "property id")
+	file := fs.String("file", "", "counterexample json")
+	vdir := fs.String("verif", "/verif", "verif dir")
+	verbose := fs.Bool("v", false, "print the native output")
+	fs.Parse(args)
+	verifDir = *vdir
+	var cfg PropCfg
+	b, err := os.ReadFile(filepath.Join(verifDir, "props", *prop+".json"))
+	if err != nil || json.Unmarshal(b, &cfg) != nil {
+		fmt.Println("INCONCLUSIVE: cannot read props for", *prop)
+		return 3
+	}
+	activeOverrides = cfg.Overrides
+	var cex CounterEx
+	b, err = os.ReadFile(*file)
+	if err != nil || json.Unmarshal(b, &cex) != nil {
+		fmt.Println("INCONCLUSIVE: cannot read counterexample", *file)
+		return 3
+	}
+	for _, ph := range cfg.Harnesses {
+		if ph.Name != baseHarnessName(strings.ReplaceAll(cex.Harness, "_", "#")) && ph.Name != baseHarnessName(cex.Harness) {
+			continue
+		}
+		if ph.Replay == "engine" {
+			fmt.Printf("replay mode of harness %s is 'engine' (schedule / crash point inside a model): use `symgo tracepath -prop %s -file %s`\n", ph.Name, *prop, *file)
+			return 3
+		}
+		abs, _ := filepath.Abs(*file)
+		ro := nativeReplay(&cex, ph, abs)
+		if *verbose {
+			fmt.Println(ro.Output)
+		}
+		fmt.Printf("native result: %s\n", ro.Result)
+		if ro.Reproduced {
+			fmt.Printf("VIOLATION property=%s replay=%s\n", *prop, abs)
+			return 1
+		}
+		fmt.Println("not reproduced on the current tree")
+		return 0
+	}
+	fmt.Println("INCONCLUSIVE: harness of the counterexample not found:", cex.Harness)
+	return 3
 }
 
 // cmdTracePath re-executes the single path of a recorded counterexample with call/log tracing.
